@@ -2,6 +2,7 @@ package main
 
 import (
 	"fmt"
+	"go/token"
 	"go/types"
 	"sort"
 	"strings"
@@ -235,6 +236,25 @@ func (c *Ctx) guardedSlice(s ssa.Value, regions map[*ssa.BasicBlock][]ssa.Value,
 			}
 			return c.guardedSlice(x.Call.Args[0], regions, seen, why)
 		}
+		// a shared helper that returns the health-filtered copy of a pool
+		if h := StaticFn(x); h != nil && c.P.IsHelios(h) && h.Blocks != nil && h.Signature.Results().Len() == 1 {
+			hr := c.healthyRegions(h)
+			ok, n := true, 0
+			instrsOf(h, func(in ssa.Instruction) {
+				if r, isRet := in.(*ssa.Return); isRet && len(r.Results) == 1 {
+					n++
+					if isConstNil(r.Results[0]) {
+						return
+					}
+					if !c.guardedSlice(r.Results[0], hr, map[ssa.Value]bool{}, why) {
+						ok = false
+					}
+				}
+			})
+			if n > 0 && ok {
+				return true
+			}
+		}
 	}
 	*why = append(*why, fmt.Sprintf("candidate slice %s is not built from health-tested backends", c.P.Desc(s, nil)))
 	return false
@@ -335,18 +355,42 @@ func checkC02(c *Ctx) {
 
 	handle := p.Fn("internal/loadbalancer", "LoadBalancer", "handleRequest")
 	sp := c.lbSpec()
-	sp.Cond = p.condMentions("findHealthyBackend")
+	// the value that is proxied, and the branch that tests it against nil
+	var proxied ssa.Value
+	if handle != nil {
+		for _, ci := range callsIn(handle) {
+			if strings.HasSuffix(CalleeName(ci), "LoadBalancer).proxyRequest") {
+				proxied = stripConv(ci.Common().Args[1])
+			}
+		}
+	}
+	isNilTest := func(cond ssa.Value) bool {
+		b, ok := cond.(*ssa.BinOp)
+		if !ok || (b.Op != token.EQL && b.Op != token.NEQ) || proxied == nil {
+			return false
+		}
+		return (stripConv(b.X) == proxied && isConstNil(b.Y)) || (stripConv(b.Y) == proxied && isConstNil(b.X))
+	}
+	sp.Cond = func(in *ssa.If, fr *Frame) string {
+		if fr != nil && fr.Fn == handle && isNilTest(in.Cond) {
+			return "backend-nil-test"
+		}
+		return ""
+	}
 	c.traceRule("unavailable-only-without-backend", "loadbalancer.(*LoadBalancer).handleRequest", handle, sp,
 		"503 is written exactly on the backend==nil edge, which never reaches the proxy; the non-nil edge proxies and writes no error itself",
 		func(t *Trace) string {
-			r, _, ok := c.findRel(t, "findHealthyBackend", "", 0, -1)
+			var r Rel
+			ok := false
+			for _, it := range t.Items {
+				if it.Label == "backend-nil-test" {
+					r, ok = c.condRel(it), true
+				}
+			}
 			if !ok {
-				return "undecided: the result of findHealthyBackend is not tested"
+				return "undecided: the backend that is proxied is not tested against nil on this path"
 			}
 			isNil := !r.Neq && r.Lo == 0 && r.Hi == 0
-			if r.Y != "k:nil" && r.Y != "" {
-				return "undecided: backend compared with something other than nil"
-			}
 			if isNil {
 				if !t.Has("status:503") {
 					return "no healthy backend but no 503 written"
@@ -371,60 +415,79 @@ func checkC02(c *Ctx) {
 // dispatchGuard: C02 clause 1.
 func (c *Ctx) dispatchGuard() {
 	p := c.P
-	fh := p.Fn("internal/loadbalancer", "LoadBalancer", "findHealthyBackend")
-	construct := "loadbalancer.(*LoadBalancer).findHealthyBackend"
-	if fh == nil {
-		c.Missing("dispatch-guard", construct)
-		return
-	}
-	regions := c.healthyRegions(fh)
-	var bad []string
-	nRet := 0
-	instrsOf(fh, func(in ssa.Instruction) {
-		r, ok := in.(*ssa.Return)
-		if !ok || len(r.Results) != 1 || isConstNil(r.Results[0]) {
-			return
+	// Every backend handed to proxyRequest passed IsBackendHealthy(that very value) on the way: the
+	// value is followed back through φs, local cells and helper returns (findHealthyBackend or whatever
+	// the selection loop is called, or inlined) until a site dominated by the true edge of the test.
+	regionsOf := map[*ssa.Function]map[*ssa.BasicBlock][]ssa.Value{}
+	regions := func(fn *ssa.Function) map[*ssa.BasicBlock][]ssa.Value {
+		if r, ok := regionsOf[fn]; ok {
+			return r
 		}
-		nRet++
-		v := r.Results[0]
-		okHere := false
-		for _, hv := range regions[r.Block()] {
+		r := c.healthyRegions(fn)
+		regionsOf[fn] = r
+		return r
+	}
+	tested := func(fn *ssa.Function, v ssa.Value, at *ssa.BasicBlock) bool {
+		for _, hv := range regions(fn)[at] {
 			if hv == v {
-				okHere = true
+				return true
 			}
 		}
-		if !okHere {
-			bad = append(bad, p.InstrPos(r)+": returns "+p.Desc(v, nil)+" without IsBackendHealthy(that backend) having been true on the path")
+		return false
+	}
+	var guarded func(fn *ssa.Function, v ssa.Value, at *ssa.BasicBlock, depth int, seen map[ssa.Value]bool, why *[]string) bool
+	guarded = func(fn *ssa.Function, v ssa.Value, at *ssa.BasicBlock, depth int, seen map[ssa.Value]bool, why *[]string) bool {
+		v = stripConv(v)
+		if isConstNil(v) || tested(fn, v, at) {
+			return true
 		}
-	})
-	if nRet == 0 {
-		c.Undecided("dispatch-guard", construct, p.Pos(fh.Pos()), "findHealthyBackend never returns a backend")
-	} else if len(bad) == 0 {
-		c.Pass("dispatch-guard", construct, p.Pos(fh.Pos()), fmt.Sprintf("%d non-nil return sites, each dominated by the true edge of the health predicate on the returned value", nRet))
-	} else {
-		c.Fail("dispatch-guard", construct, p.Pos(fh.Pos()), bad[0], bad...)
-	}
-	// the backend proxied is that result
-	handle := p.Fn("internal/loadbalancer", "LoadBalancer", "handleRequest")
-	construct = "loadbalancer.(*LoadBalancer).handleRequest/proxyRequest-argument"
-	if handle == nil {
-		c.Missing("dispatch-guard", construct)
-		return
-	}
-	found := false
-	for _, ci := range callsIn(handle) {
-		if strings.HasSuffix(CalleeName(ci), "LoadBalancer).proxyRequest") {
-			found = true
-			d := p.Desc(ci.Common().Args[1], nil)
-			c.Check(strings.HasPrefix(d, "call:(*github.com/0xReLogic/Helios/internal/loadbalancer.LoadBalancer).findHealthyBackend("), "dispatch-guard", construct, p.InstrPos(ci),
-				"the proxied backend is the value returned by findHealthyBackend", "the proxied backend is not the result of findHealthyBackend: "+d)
+		if seen[v] || depth > 6 {
+			return seen[v]
 		}
+		seen[v] = true
+		switch x := v.(type) {
+		case *ssa.Phi:
+			for i, e := range x.Edges {
+				if e == ssa.Value(x) {
+					continue
+				}
+				if !guarded(fn, e, x.Block().Preds[i], depth+1, seen, why) {
+					return false
+				}
+			}
+			return true
+		case *ssa.UnOp:
+			if cell, ok := x.X.(*ssa.Alloc); ok && cell.Referrers() != nil {
+				n := 0
+				for _, r := range *cell.Referrers() {
+					if st, isSt := r.(*ssa.Store); isSt && st.Addr == ssa.Value(cell) {
+						n++
+						if !guarded(fn, st.Val, st.Block(), depth+1, seen, why) {
+							return false
+						}
+					}
+				}
+				return n > 0
+			}
+		case *ssa.Call:
+			h := StaticFn(x)
+			if h != nil && p.IsHelios(h) && h.Blocks != nil && h.Signature.Results().Len() == 1 && h.Name() != "NextBackend" {
+				ok, n := true, 0
+				instrsOf(h, func(in ssa.Instruction) {
+					if r, isRet := in.(*ssa.Return); isRet && len(r.Results) == 1 {
+						n++
+						if !guarded(h, r.Results[0], r.Block(), depth+1, map[ssa.Value]bool{}, why) {
+							ok = false
+						}
+					}
+				})
+				return ok && n > 0
+			}
+		}
+		*why = append(*why, p.Desc(v, nil)+" reaches the proxy without IsBackendHealthy(that backend) having been true on the path")
+		return false
 	}
-	if !found {
-		// proxying might be inlined elsewhere: require every call of proxyRequest in the package to take a findHealthyBackend result
-		c.Missing("dispatch-guard", construct)
-	}
-	// nobody else proxies
+	nSites := 0
 	for _, fn := range p.Funcs {
 		if !p.InScope(fn) {
 			continue
@@ -433,11 +496,23 @@ func (c *Ctx) dispatchGuard() {
 			if CalleeName(ci) == "(*net/http/httputil.ReverseProxy).ServeHTTP" && fn.Name() != "proxyRequest" {
 				c.Fail("dispatch-guard", p.FuncKey(fn)+"/direct-proxy-call", p.InstrPos(ci), "a backend's ReverseProxy is invoked outside proxyRequest (bypasses the health-guarded dispatch)")
 			}
-			if strings.HasSuffix(CalleeName(ci), "LoadBalancer).proxyRequest") && fn != handle {
-				c.Fail("dispatch-guard", p.FuncKey(fn)+"/proxyRequest-call", p.InstrPos(ci), "proxyRequest is called from outside handleRequest (bypasses the health-guarded dispatch)")
+			if !strings.HasSuffix(CalleeName(ci), "LoadBalancer).proxyRequest") {
+				continue
+			}
+			nSites++
+			var why []string
+			construct := p.FuncKey(fn) + "/proxyRequest-argument"
+			if guarded(fn, ci.Common().Args[1], ci.Block(), 0, map[ssa.Value]bool{}, &why) {
+				c.Pass("dispatch-guard", construct, p.InstrPos(ci), "the proxied backend passed IsBackendHealthy(that backend) on every path that delivers it")
+			} else {
+				if len(why) == 0 {
+					why = []string{"the proxied backend is not shown to have passed the health test"}
+				}
+				c.Fail("dispatch-guard", construct, p.InstrPos(ci), why[0], why...)
 			}
 		}
 	}
+	c.Floor("dispatch-guard", nSites, 1, "proxyRequest call sites")
 }
 
 // healthSpec: events on Backend health state.
@@ -474,6 +549,8 @@ func (c *Ctx) healthSpec() *Spec {
 				return "mark-unhealthy(" + p.Desc(args[1], fr) + ")"
 			case strings.HasSuffix(n, "LoadBalancer).performHealthCheck"):
 				return "probe"
+			case n == "net/http.NewRequestWithContext" && p.Fn("internal/loadbalancer", "LoadBalancer", "performHealthCheck") == nil && strings.Contains(p.Desc(args[0], fr), "LoadBalancer.ctx"):
+				return "probe" // the probe is built and sent inline
 			case strings.HasSuffix(n, "LoadBalancer).handlePassiveHealthCheck"):
 				return "passive-check"
 			}
@@ -481,7 +558,7 @@ func (c *Ctx) healthSpec() *Spec {
 		},
 		Cond: func(in *ssa.If, fr *Frame) string {
 			d := p.Desc(in.Cond, fr)
-			for _, s := range []string{"Backend.IsHealthy", "Backend.UnhealthyUntil", "unhealthyBackends", "passiveThreshold", "passiveEnabled", "StatusCode", "statusCode", "performHealthCheck", "metricsCollector"} {
+			for _, s := range []string{"Backend.IsHealthy", "Backend.UnhealthyUntil", "unhealthyBackends", "passiveThreshold", "passiveEnabled", "StatusCode", "statusCode", "performHealthCheck", "metricsCollector", "NewRequestWithContext(", "http.Client).Do("} {
 				if strings.Contains(d, s) {
 					return "if " + d
 				}
@@ -872,11 +949,28 @@ func (c *Ctx) probeEdges() {
 				}
 				return ""
 			}
-			e, _, okE := c.findRel(t, "performHealthCheck", "", pi, -1)
+			// the probe failed when any of its fallible steps reported an error
+			okE, failed := false, false
+			for _, it := range t.Items[pi:] {
+				if _, isIf := it.Instr.(*ssa.If); !isIf {
+					continue
+				}
+				e := c.condRel(it)
+				if !e.OK || e.Y != "" && e.Y != "k:nil" {
+					continue
+				}
+				if strings.Contains(e.X, "performHealthCheck(") || strings.Contains(e.X, "NewRequestWithContext(") || strings.Contains(e.X, "http.Client).Do(") {
+					if strings.Contains(e.X, "#1") && e.Pred == "" { // the error result, possibly merged by a φ
+						okE = true
+						if e.Neq || e.Lo != 0 {
+							failed = true
+						}
+					}
+				}
+			}
 			if !okE {
 				return "undecided: probe error is not tested"
 			}
-			failed := e.Neq || e.Lo != 0
 			if failed {
 				if !marked {
 					return "failed probe does not eject the backend"
